@@ -1947,6 +1947,30 @@ pub fn gen_case(rng: &mut Rng, tier: &str, profile: &str, stats: &mut Stats) -> 
         ops.push("hquiet".into());
         return ops;
     }
+    if profile == "C13" && rng.chance(1, 8) {
+        // directed case: a request to a silent peer is about to time out when that peer's own (undecryptable)
+        // packet makes this node challenge it; the request's failure releases the request's exemption,
+        // the challenge keeps its own until it is answered or expires
+        stats.bump("gen.cases.directed-timeout-while-own-challenge-outstanding");
+        let x = rng.range(1, n);
+        let y = if x == 1 { 2 } else { 1 };
+        let r = rng.range(1, 2);
+        ops.push(format!("hworld {} {} 400 1000 86400000", n, r));
+        ops.push(format!("hreq {} {} enr 1 {}", x, y, rng.range(1, 4)));
+        ops.push("hdel skip".into());
+        ops.push(format!("hadv {}", (r - 1) * 400 + rng.range(120, 200)));
+        if r == 2 { ops.push("hdel skip".into()); }
+        ops.push(format!("hcraft random {} {}", y, x));
+        ops.push(format!("hdel last {}", y));
+        ops.push("hdel skip".into());
+        ops.push(format!("hwru {} next {}", x, if rng.chance(1, 2) { "known" } else { "none" }));
+        ops.push("hdel skip".into());
+        ops.push(format!("hadv {}", rng.range(230, 300)));
+        ops.push("hadv 60".into());
+        ops.push("hadv 300".into());
+        ops.push("hquiet".into());
+        return ops;
+    }
     if nat_replay {
         // directed case: the handshake of such a node is accepted (signature good, record does not
         // verify against the observed socket) and is then presented again, and again
